@@ -5,7 +5,7 @@
 From Coq Require Import String.
 From Coq Require Import List NArith ZArith Bool Lia.
 From VF Require Import Base.Sx Tftp.Readers Tftp.ReadersProofs Tftp.Codec Tftp.Transfer Tftp.Run Tftp.Monitor
-  Tftp.MonitorProofs Tftp.Numbering Tftp.Delivery.
+  Tftp.MonitorProofs Tftp.Ideal Tftp.Numbering Tftp.Delivery.
 Import ListNotations.
 Open Scope Z_scope.
 
@@ -65,14 +65,17 @@ Lemma client_pkt_error t a cd : client_pkt (TSend t a (PError cd)) = None.
 Proof. unfold client_pkt. destruct (a =? client)%N; reflexivity. Qed.
 
 (* ---------- one wait ---------- *)
-Lemma await_sum w : forall evs now dl o n' e' l,
-  await current w now dl evs = (o, n', e', l) ->
+Lemma await_sum c w : v c = current -> forall evs now dl o n' e' l,
+  await c w now dl evs = (o, n', e', l) ->
   forall prev lp,
     new_sends_from prev l = [] /\ last_pkt lp l = lp /\
     (is_timeout prev = false -> retrans_from lp prev l) /\ lockstep_from lp prev l /\
     ends_as w o (last_ev prev l).
 Proof.
-  induction evs as [|[t a d] evs IH]; intros now dl o n' e' l H prev lp; cbn [await] in H.
+  intros Hv.
+  induction evs as [|[t a d] evs IH]; intros now dl o n' e' l H prev lp; cbn [await] in H; rewrite Hv in H;
+    (destruct (negb (late_recv current) && (dl <=? now));
+     [inversion H; subst; cbn; repeat split; auto; eexists; reflexivity|]).
   - inversion H; subst. cbn. repeat split; auto. eexists; reflexivity.
   - destruct (t <? now + sock_timeout now dl).
     2:{ inversion H; subst. cbn. repeat split; auto. eexists; reflexivity. }
@@ -80,7 +83,7 @@ Proof.
     + destruct (classify current d) eqn:Ec.
       * destruct (N.eqb_spec n w) as [Hn|Hn].
         -- inversion H; subst. cbn. repeat split; auto. do 2 eexists. split; [reflexivity|exact Ec].
-        -- destruct (await current w (Z.max now t) dl evs) as [[[o2 n2] e2] l2] eqn:E2.
+        -- destruct (await c w (Z.max now t + proc c) dl evs) as [[[o2 n2] e2] l2] eqn:E2.
            inversion H; subst.
            destruct (IH _ _ _ _ _ _ E2 (Some (TRecv t client d)) lp) as (I1 & I2 & I3 & I4 & I5).
            cbn [new_sends_from client_pkt last_pkt upd_pkt retrans_from lockstep_from last_ev].
@@ -88,9 +91,9 @@ Proof.
       * inversion H; subst. cbn. repeat split; auto.
       * inversion H; subst. cbn. repeat split; auto.
       * inversion H; subst. cbn. repeat split; auto.
-    + destruct (await current w (Z.max now t) dl evs) as [[[o2 n2] e2] l2] eqn:E2.
+    + destruct (await c w (Z.max now t + proc c) dl evs) as [[[o2 n2] e2] l2] eqn:E2.
       inversion H; subst.
-      destruct (IH _ _ _ _ _ _ E2 (Some (TSend (Z.max now t) a (PError 5))) lp) as (I1 & I2 & I3 & I4 & I5).
+      destruct (IH _ _ _ _ _ _ E2 (Some (TSend (Z.max now t + proc c) a (PError 5))) lp) as (I1 & I2 & I3 & I4 & I5).
       cbn [new_sends_from last_pkt retrans_from lockstep_from last_ev is_timeout].
       rewrite !upd_pkt_error, !client_pkt_error. cbn [client_pkt upd_pkt].
       repeat split; auto.
@@ -120,9 +123,10 @@ Section Tries.
     send_tries c (S k) p (want p) now evs = (o, n', e', l) ->
     forall prev lp, tries_concl p o l prev lp.
   Proof.
-    induction k as [|k IH]; intros p now evs o n' e' l Hp H prev lp; rewrite send_tries_S in H; rewrite v_cur in H;
-      destruct (await current (want p) now (now + tmo c) evs) as [[[o1 n1] e1] l1] eqn:E1;
-      destruct (await_sum _ _ _ _ _ _ _ _ E1 (Some (TSend now client p)) (Some p)) as (A1 & A2 & A3 & A4 & A5);
+    induction k as [|k IH]; intros p now evs o n' e' l Hp H prev lp; rewrite send_tries_S in H;
+      destruct (await c (want p) now (now + tmo c) evs) as [[[o1 n1] e1] l1] eqn:E1;
+      try rewrite v_cur in H;
+      destruct (await_sum c _ v_cur _ _ _ _ _ _ _ E1 (Some (TSend now client p)) (Some p)) as (A1 & A2 & A3 & A4 & A5);
       specialize (A3 eq_refl);
       assert (Single : tries_concl p o1 (TSend now client p :: l1) prev lp)
         by (unfold tries_concl;
@@ -291,9 +295,9 @@ Qed.
 (* no client datagram before the deadline: the wait times out exactly at the deadline; only
    foreign senders were answered *)
 Lemma await_quiet w Tend : forall evs now dl, now < dl -> dl <= Tend -> quiet_before Tend evs ->
-  exists e' l, await current w now dl evs = (OTimeout, dl, e', l) /\ quiet_before Tend e' /\ client_sends l = [].
+  exists e' l, await0 current w now dl evs = (OTimeout, dl, e', l) /\ quiet_before Tend e' /\ client_sends l = [].
 Proof.
-  induction evs as [|[t a d] evs IH]; intros now dl Hn Hd Q; cbn [await]; unfold sock_timeout;
+  induction evs as [|[t a d] evs IH]; intros now dl Hn Hd Q; cbn [await0]; unfold sock_timeout;
     destruct (Z.ltb_spec 0 (dl - now)) as [_|Hc]; try lia;
     replace (now + (dl - now)) with dl by lia.
   - exists [], [TTimeout dl]. repeat split. constructor.
@@ -310,13 +314,14 @@ Section GiveUp.
   Variable c : cfg.
   Hypothesis v_cur : v c = current.
   Hypothesis tm_pos : 0 < tmo c.
+  Hypothesis pr_zero : proc c = 0.
 
   Lemma send_tries_quiet : forall k p w now evs Tend,
     now + Z.of_nat (S k) * tmo c <= Tend -> quiet_before Tend evs ->
     exists e' l, send_tries c (S k) p w now evs = (OTimeout, now + Z.of_nat (S k) * tmo c, e', l) /\
                  client_sends l = map (fun j => (now + Z.of_nat j * tmo c, p)) (seq 0 (S k)).
   Proof.
-    induction k as [|k IH]; intros p w now evs Tend HT Q; rewrite send_tries_S, v_cur;
+    induction k as [|k IH]; intros p w now evs Tend HT Q; rewrite (send_tries_S0 c pr_zero tm_pos), v_cur;
       destruct (await_quiet w Tend evs now (now + tmo c) ltac:(lia) ltac:(nia) Q) as (e1 & l1 & E1 & Q1 & C1);
       rewrite E1.
     - cbn [retry_fallthrough current]. exists e1, (TSend now client p :: l1). split; [f_equal; f_equal; f_equal; lia|].
@@ -368,9 +373,9 @@ Qed.
 (* a round in which nothing arrives before the deadline *)
 Lemma await_lost w now dl evs : now < dl ->
   match evs with [] => True | Recv t _ _ :: _ => dl <= t end ->
-  await current w now dl evs = (OTimeout, dl, evs, [TTimeout dl]).
+  await0 current w now dl evs = (OTimeout, dl, evs, [TTimeout dl]).
 Proof.
-  intros Hn H. destruct evs as [|[t a d] evs]; cbn [await]; unfold sock_timeout;
+  intros Hn H. destruct evs as [|[t a d] evs]; cbn [await0]; unfold sock_timeout;
     destruct (Z.ltb_spec 0 (dl - now)) as [_|Hc]; try lia; replace (now + (dl - now)) with dl by lia.
   - reflexivity.
   - destruct (Z.ltb_spec t dl); [lia|reflexivity].
@@ -379,17 +384,17 @@ Qed.
 (* the successful round: noise keeps the wait going, the good ACK ends it at its arrival time *)
 Lemma await_good w S tm dlt rest : 0 <= dlt < tm -> forall nzs now, S <= now <= S + dlt ->
   Forall (noise_ok w dlt) nzs ->
-  exists l, await current w now (S + tm)
+  exists l, await0 current w now (S + tm)
               (map (fun nz => noise_event (S + snd nz) (fst nz)) nzs ++ Recv (S + dlt) client (ack_bytes w) :: rest)
             = (OAcked, S + dlt, rest, l).
 Proof.
-  intros Hd. induction nzs as [|[x off] nzs IH]; intros now Hn F; cbn [map app await]; unfold sock_timeout;
+  intros Hd. induction nzs as [|[x off] nzs IH]; intros now Hn F; cbn [map app await0]; unfold sock_timeout;
     destruct (Z.ltb_spec 0 (S + tm - now)) as [_|Hc]; try lia; replace (now + (S + tm - now)) with (S + tm) by lia.
   - destruct (Z.ltb_spec (S + dlt) (S + tm)); [|lia]. change (client =? client)%N with true. cbn [negb].
     rewrite classify_ack_bytes, N.eqb_refl. eexists. f_equal. f_equal. f_equal. lia.
   - inversion F as [|? ? [Ho Hx] F']; subst. cbn [fst snd] in *.
     destruct (IH (Z.max now (S + off)) ltac:(lia) F') as [l E].
-    destruct x as [n|a d]; cbn [noise_event await]; unfold sock_timeout;
+    destruct x as [n|a d]; cbn [noise_event await0]; unfold sock_timeout;
       destruct (Z.ltb_spec 0 (S + tm - now)) as [_|Hc']; try lia;
       replace (now + (S + tm - now)) with (S + tm) by lia;
       (destruct (Z.ltb_spec (S + off) (S + tm)); [|lia]).
@@ -402,6 +407,7 @@ Section Coop.
   Variable c : cfg.
   Hypothesis v_cur : v c = current.
   Hypothesis tm_pos : 0 < tmo c.
+  Hypothesis pr_zero : proc c = 0.
 
   Lemma send_tries_coop p dlt nzs rest : 0 <= dlt < tmo c -> Forall (noise_ok (want p) dlt) nzs ->
     forall lostn k now, (lostn <= k)%nat ->
@@ -410,7 +416,7 @@ Section Coop.
                 (map (fun nz => noise_event (S + snd nz) (fst nz)) nzs ++ Recv (S + dlt) client (ack_bytes (want p)) :: rest)
               = (OAcked, S + dlt, rest, l).
   Proof.
-    intros Hd F. induction lostn as [|m IH]; intros k now Hk; cbv zeta; rewrite send_tries_S, v_cur.
+    intros Hd F. induction lostn as [|m IH]; intros k now Hk; cbv zeta; rewrite (send_tries_S0 c pr_zero tm_pos), v_cur.
     - replace (now + Z.of_nat 0 * tmo c) with now by lia.
       destruct (await_good (want p) now (tmo c) dlt rest Hd nzs now ltac:(lia) F) as [l E]. rewrite E.
       eexists. reflexivity.
@@ -484,7 +490,7 @@ Qed.
 
 Lemma valid_tm_pos c : valid c -> 0 < tmo (t_cfg c).
 Proof.
-  intros (Hcur & Hnv & Hna & Hb & Ht).
+  intros (Hcur & Hnv & Hna & Hb & Ht & _).
   destruct (negotiate_pos (t_limits c) (t_netascii c) (t_kind c) (t_options c) Hb Ht) as [_ Htm].
   unfold t_cfg, t_neg; cbn [tmo]. rewrite Hnv. unfold TICKS. lia.
 Qed.
@@ -521,7 +527,7 @@ Proof.
 Qed.
 
 (* (2) the cooperative client *)
-Theorem case_delivers c plans : valid c ->
+Theorem case_delivers c plans : valid c -> t_proc c = 0 ->
   length plans = length (fst (expected c)) ->
   Forall (plan_ok (tmo (t_cfg c)) (t_retries c)) (combine (fst (expected c)) plans) ->
   t_events c = coop_script c plans ->
@@ -529,10 +535,10 @@ Theorem case_delivers c plans : valid c ->
   new_sends (run_transfer_case c) = fst (expected c) /\
   (snd (expected c) = false -> delivered (run_transfer_case c) = wire_content c).
 Proof.
-  intros Hv Hl F Ev. unfold coop_script in Ev. rewrite expected_eq in *. cbn [fst snd] in *.
+  intros Hv Hz Hl F Ev. unfold coop_script in Ev. rewrite expected_eq in *. cbn [fst snd] in *.
   assert (E : ending_of c = inr (if snd (number_blocks (t_wrap c) 0%N (spec_blocks c)) then EOverflow else EDone)).
   { unfold ending_of, run_r. rewrite (t_blocks_spec c Hv), Ev.
-    apply (transfer_completes (t_cfg c) (valid_cur c Hv) (valid_tm_pos c Hv)); assumption. }
+    apply (transfer_completes (t_cfg c) (valid_cur c Hv) (valid_tm_pos c Hv) Hz); assumption. }
   split; [exact E|].
   pose proof (transfer_safety (t_cfg c) (n_oack (t_neg c)) (spec_blocks c) (t_events c) (valid_cur c Hv))
     as (_ & _ & _ & D).
@@ -566,16 +572,16 @@ Proof.
 Qed.
 
 (* (4) silence *)
-Theorem case_gives_up c p0 rest : valid c -> fst (expected c) = p0 :: rest ->
+Theorem case_gives_up c p0 rest : valid c -> t_proc c = 0 -> fst (expected c) = p0 :: rest ->
   quiet_before (Z.of_nat (S (t_retries c)) * tmo (t_cfg c)) (t_events c) ->
   ending_of c = inl OTimeout /\
   client_sends (run_transfer_case c) =
     map (fun j => (Z.of_nat j * tmo (t_cfg c), p0)) (seq 0 (S (t_retries c))) /\
   exists l0, run_transfer_case c = l0 ++ [TCloseFile; TCloseSock].
 Proof.
-  intros Hv Hp Q. rewrite expected_eq in Hp. cbn [fst] in Hp.
+  intros Hv Hz Hp Q. rewrite expected_eq in Hp. cbn [fst] in Hp.
   unfold ending_of, run_r, run_transfer_case. rewrite (t_blocks_spec c Hv).
-  exact (gives_up (t_cfg c) (valid_cur c Hv) (valid_tm_pos c Hv) _ _ _ p0 rest Hp Q).
+  exact (gives_up (t_cfg c) (valid_cur c Hv) (valid_tm_pos c Hv) Hz _ _ _ p0 rest Hp Q).
 Qed.
 
 (* readings of the two trace predicates at a position of the trace *)
@@ -616,14 +622,14 @@ Qed.
 (* a lost round with noise: the noise is consumed, the deadline stays where it was *)
 Lemma await_noise_late w R tm rest : 0 < tm -> head_ge (R + tm) rest -> forall nzs now, R <= now < R + tm ->
   Forall (noise_ok w (tm - 1)) nzs ->
-  exists l, await current w now (R + tm) (map (fun nz => noise_event (R + snd nz) (fst nz)) nzs ++ rest)
+  exists l, await0 current w now (R + tm) (map (fun nz => noise_event (R + snd nz) (fst nz)) nzs ++ rest)
             = (OTimeout, R + tm, rest, l).
 Proof.
   intros Htm Hr. induction nzs as [|[x off] nzs IH]; intros now Hn F; cbn [map app].
   - rewrite await_lost; [eexists; reflexivity|lia|]. destruct rest as [|[t a d] rest]; [exact Logic.I|exact Hr].
   - inversion F as [|? ? [Ho Hx] F']; subst. cbn [fst snd] in *.
     destruct (IH (Z.max now (R + off)) ltac:(lia) F') as [l E].
-    destruct x as [n|a d]; cbn [noise_event await]; unfold sock_timeout;
+    destruct x as [n|a d]; cbn [noise_event await0]; unfold sock_timeout;
       destruct (Z.ltb_spec 0 (R + tm - now)) as [_|Hc']; try lia;
       replace (now + (R + tm - now)) with (R + tm) by lia;
       (destruct (Z.ltb_spec (R + off) (R + tm)); [|lia]).
@@ -636,6 +642,7 @@ Section GCoop.
   Variable c : cfg.
   Hypothesis v_cur : v c = current.
   Hypothesis tm_pos : 0 < tmo c.
+  Hypothesis pr_zero : proc c = 0.
 
   Lemma send_tries_gcoop p dlt nzs rest : 0 <= dlt < tmo c -> Forall (noise_ok (want p) dlt) nzs ->
     forall rounds k now, (length rounds <= k)%nat ->
@@ -647,13 +654,13 @@ Section GCoop.
               = (OAcked, S + dlt, rest, l).
   Proof.
     intros Hd F. induction rounds as [|r1 rounds IH]; intros k now Hk FR; cbv zeta; cbn [round_events length app].
-    - destruct (send_tries_coop c v_cur tm_pos p dlt nzs rest Hd F 0%nat k now ltac:(lia)) as [l E].
+    - destruct (send_tries_coop c v_cur tm_pos pr_zero p dlt nzs rest Hd F 0%nat k now ltac:(lia)) as [l E].
       cbv zeta in E. exact (ex_intro _ l E).
     - destruct k as [|k]; [cbn in Hk; lia|]. inversion FR as [|? ? F1 F2]; subst.
-      rewrite send_tries_S, v_cur, <- app_assoc.
+      rewrite (send_tries_S0 c pr_zero tm_pos), v_cur, <- app_assoc.
       set (S := now + Z.of_nat (Datatypes.S (length rounds)) * tmo c).
       assert (ES : S = now + tmo c + Z.of_nat (length rounds) * tmo c) by (subst S; lia).
-      match goal with |- context [await current ?w now (now + tmo c) (map ?f r1 ++ ?rest0)] =>
+      match goal with |- context [await0 current ?w now (now + tmo c) (map ?f r1 ++ ?rest0)] =>
         destruct (await_noise_late w now (tmo c) rest0 tm_pos) with (nzs := r1) (now := now) as [l1 E1];
           [|lia|exact F1|] end.
       { apply (head_ge_rounds _ (tmo c) (want p) tm_pos rounds (now + tmo c)); [lia|exact F2|].
@@ -708,7 +715,7 @@ Section GCoop.
   Qed.
 End GCoop.
 
-Theorem case_delivers_g c plans : valid c ->
+Theorem case_delivers_g c plans : valid c -> t_proc c = 0 ->
   length plans = length (fst (expected c)) ->
   Forall (gplan_ok (tmo (t_cfg c)) (t_retries c)) (combine (fst (expected c)) plans) ->
   t_events c = gcoop_script c plans ->
@@ -716,10 +723,10 @@ Theorem case_delivers_g c plans : valid c ->
   new_sends (run_transfer_case c) = fst (expected c) /\
   (snd (expected c) = false -> delivered (run_transfer_case c) = wire_content c).
 Proof.
-  intros Hv Hl F Ev. unfold gcoop_script in Ev. rewrite expected_eq in *. cbn [fst snd] in *.
+  intros Hv Hz Hl F Ev. unfold gcoop_script in Ev. rewrite expected_eq in *. cbn [fst snd] in *.
   assert (E : ending_of c = inr (if snd (number_blocks (t_wrap c) 0%N (spec_blocks c)) then EOverflow else EDone)).
   { unfold ending_of, run_r. rewrite (t_blocks_spec c Hv), Ev.
-    apply (transfer_completes_g (t_cfg c) (valid_cur c Hv) (valid_tm_pos c Hv)); assumption. }
+    apply (transfer_completes_g (t_cfg c) (valid_cur c Hv) (valid_tm_pos c Hv) Hz); assumption. }
   split; [exact E|].
   pose proof (transfer_safety (t_cfg c) (n_oack (t_neg c)) (spec_blocks c) (t_events c) (valid_cur c Hv))
     as (_ & _ & _ & D).
